@@ -104,7 +104,7 @@ func ruleC07(c *Ctx) {
 				okFlow := true
 				var doc Val
 				for _, u := range t.St.events {
-					if u.Seq <= e.Seq || (u.Kind != EvCall && u.Kind != EvEnter) || !directArg(u, raw.Key()) {
+					if u.Seq <= e.Seq || u.Kind != EvCall || !directArg(u, raw.Key()) {
 						continue
 					}
 					if shortName(u.Callee) == "parseResponse" && u.Kind == EvCall && u.Args[0].Key() == raw.Key() {
@@ -220,6 +220,11 @@ func ruleC07(c *Ctx) {
 				c.check(good, "C07-R2", fname, "unsigned path order ["+label+"]", pos, detail,
 					"on the unsigned-Response path decryption does not precede the verifying traversal over the same root (decrypted assertions would be dropped or left unverified)")
 				c.check(provOf(t, dec.Args[1]) == "raw", "C07-R2", fname, "unsigned path decrypts inside the raw root ["+label+"]", pos, "root", "decrypts "+provOf(t, dec.Args[1]))
+				for _, d := range decodes(t) {
+					if d.Obj.Key() == t.Vals[0].Key() {
+						headerBeforeMutation(c, "C07-R2", t, fname, label, d)
+					}
+				}
 			} else {
 				nS++
 				good := unm != nil && dec.Seq < unm.Seq && provOf(t, dec.Args[1]) == "verified(raw)"
@@ -401,12 +406,13 @@ func ruleC07(c *Ctx) {
 		"(*types.EncryptedAssertion).Decrypt":            "",
 	}
 	n := scanCalls(c.P, c.P.LibFns, func(s string) bool { _, ok := allowed[shortName(s)]; return ok }, func(s callSite) {
-		okc := false
+		var names []string
 		for _, a := range strings.Split(allowed[shortName(s.Callee)], "|") {
-			if a != "" && shortFn(s.Caller) == a {
-				okc = true
+			if a != "" {
+				names = append(names, a, strings.TrimSuffix(a, "$1"))
 			}
 		}
+		okc := len(names) > 0 && c.P.withinOnly(s.Caller, allowNames(names...))
 		c.check(okc, "C07-R6", shortFn(s.Caller), "call "+shortName(s.Callee), c.P.InstrPos(s.Instr), "enumerated caller", "decrypt routine called from an unanalysed site")
 	})
 	c.count("C07-R6/decrypt-call-sites", n)
@@ -432,7 +438,7 @@ func ruleC12(c *Ctx) {
 		return false
 	}
 	n := scanCalls(c.P, c.P.LibFns, isDecomp, func(s callSite) {
-		c.check(shortFn(s.Caller) == "maybeDeflate", "C12-R1", shortFn(s.Caller), "call "+s.Callee, c.P.InstrPos(s.Instr), "inside maybeDeflate", "input is decompressed outside maybeDeflate (no size bound)")
+		c.check(c.P.withinOnly(s.Caller, allowNames("maybeDeflate")), "C12-R1", shortFn(s.Caller), "call "+s.Callee, c.P.InstrPos(s.Instr), "inside maybeDeflate (or a helper only it calls)", "input is decompressed outside maybeDeflate (no size bound)")
 	})
 	c.count("C12-R1/decompressors", n)
 	c.floor("C12-R1/decompressors", 1)
@@ -443,7 +449,7 @@ func ruleC12(c *Ctx) {
 		c.bad("C12-R1", "controls/rawinflate", "positive control", "-", "matcher did not flag the control that inflates without bound")
 	}
 
-	md := c.kernel("maybeDeflate")
+	md := c.kernel("maybeDeflate", "*")
 	if md != nil {
 		fname := shortFn(md.Root)
 		nSecond := 0
@@ -478,26 +484,38 @@ func ruleC12(c *Ctx) {
 				continue
 			}
 			flv := fl.Res[0]
+			// the limited reader: io.LimitReader(r, n) or the literal &io.LimitedReader{R: r, N: n} it is defined to return
+			var limVal, limR, limN Val
+			var limInstr ssa.Instruction = fl.Instr
+			if ra != nil {
+				switch x := stripIface(ra.Args[0]).(type) {
+				case *CallV:
+					if x.Callee == "io.LimitReader" {
+						limVal, limR, limN = x, stripIface(x.Args[0]), x.Args[1]
+					}
+				case *AllocV:
+					if strings.HasSuffix(typeStr(x.Type()), "io.LimitedReader") {
+						r, ok1 := t.finalField(x, "R")
+						n, ok2 := t.finalField(x, "N")
+						if ok1 && ok2 {
+							limVal, limR, limN = x, stripIface(r), n
+						}
+					}
+				}
+			}
+			if lim != nil {
+				limInstr = lim.Instr
+			}
 			// R2: consumers of the flate reader
 			okFlow := true
 			for _, e := range t.St.events {
-				if e.Kind == EvCall && e.Seq > fl.Seq && argsMention(e, flv.Key()) && e != lim {
-					// ReadAll(limited) mentions the flate reader transitively through the LimitReader value: allow only that
-					if lim != nil && e.Callee == "io.ReadAll" && stripIface(e.Args[0]).Key() == lim.Res[0].Key() {
-						continue
-					}
-					if lim != nil && strings.HasPrefix(e.Callee, "dynamic:") {
-						continue // decoder receives the bytes read through the limited reader
-					}
-					if e.Callee == "fmt.Errorf" {
-						continue
-					}
+				if e.Kind == EvCall && e.Seq > fl.Seq && directArg(e, flv.Key()) && e != lim {
 					okFlow = false
 					c.bad("C12-R2", fname, "decompressor consumed by "+shortName(e.Callee), c.P.InstrPos(e.Instr), "the decompressor is read by "+shortName(e.Callee)+" without going through the limited reader")
 				}
 			}
-			if lim == nil || stripIface(lim.Args[0]).Key() != flv.Key() {
-				c.bad("C12-R2", fname, "flate reader wrapped in io.LimitReader", c.P.InstrPos(fl.Instr), "the decompressor is not wrapped in io.LimitReader before being read")
+			if limVal == nil || limR == nil || limR.Key() != flv.Key() {
+				c.bad("C12-R2", fname, "flate reader wrapped in io.LimitReader", c.P.InstrPos(fl.Instr), "the decompressor is not wrapped in a limited reader (io.LimitReader / io.LimitedReader) that is then the only thing read")
 				continue
 			}
 			a := t.atoms()
@@ -508,14 +526,14 @@ func ruleC12(c *Ctx) {
 			case a["!($maxSize == 0)"]:
 				maxAP = "$maxSize"
 			default:
-				c.bad("C12-R2", fname, "default limit selection", c.P.InstrPos(lim.Instr), "path does not select the default for maxSize == 0")
+				c.bad("C12-R2", fname, "default limit selection", c.P.InstrPos(limInstr), "path does not select the default for maxSize == 0")
 				continue
 			}
 			wantN := "(" + maxAP + " + 1)"
 			if maxAP != "$maxSize" {
 				wantN = fmt.Sprint(defaultMax + 1)
 			}
-			c.check(ap(lim.Args[1]) == wantN, "C12-R2", fname, "LimitReader bound is max+1 ["+maxAP+"]", c.P.InstrPos(lim.Instr), "N = "+wantN, "LimitReader bound is "+ap(lim.Args[1])+", want "+wantN+" (limit "+maxAP+")")
+			c.check(ap(limN) == wantN, "C12-R2", fname, "LimitReader bound is max+1 ["+maxAP+"]", c.P.InstrPos(limInstr), "N = "+wantN, "LimitReader bound is "+ap(limN)+", want "+wantN+" (limit "+maxAP+")")
 			if okFlow {
 				c.ok("C12-R2", fname, "only the limited reader is read ["+maxAP+"]", c.P.InstrPos(fl.Instr), "flate reader -> LimitReader -> ReadAll")
 			}
@@ -554,30 +572,49 @@ func ruleC12(c *Ctx) {
 		c.floor("C12-R3/second-decodes", 2)
 	}
 
-	// R5 routing and limits
-	limits := map[string]string{
-		"parseResponse":                         "$maxSize",
-		"DecodeUnverifiedBaseResponse":          fmt.Sprint(defaultMax),
-		"DecodeUnverifiedLogoutResponse":        fmt.Sprint(defaultMax),
-	}
+	// R4b transparency of the XML decoder closure: fresh document per attempt, screened bytes (shared with C01-R5)
+	screenRule(c, "C12-R4/parse")
+
+	// R5 routing and limits — decided on the kernel paths (robust to wrapper helpers): every parseResponse call of the
+	// validators and of decryptAssertions passes sp.MaximumDecompressedBodySize; parseResponse hands its own limit on;
+	// the pre-decoders pass the 5 MiB constant.
 	nSites := 0
-	scanCalls(c.P, c.P.LibFns, func(s string) bool { return shortName(s) == "maybeDeflate" }, func(s callSite) {
-		nSites++
-		want, ok := limits[shortFn(s.Caller)]
-		if !ok {
-			c.bad("C12-R5", shortFn(s.Caller), "call maybeDeflate", c.P.InstrPos(s.Instr), "new caller of maybeDeflate: its limit is not in the table")
+	limitOf := func(kname string, inline []string, callee string, want string) {
+		r := c.kernel(kname, inline...)
+		if r == nil {
 			return
 		}
-		got := renderOperand(s.Instr.Common().Args[1])
-		c.check(got == want, "C12-R5", shortFn(s.Caller), "limit passed to maybeDeflate", c.P.InstrPos(s.Instr), got, "limit is "+got+", want "+want)
+		seen := 0
+		for _, t := range r.Terms {
+			for _, e := range t.St.events {
+				if (e.Kind == EvCall || e.Kind == EvEnter) && shortName(e.Callee) == callee && len(e.Args) >= 2 {
+					seen++
+					c.check(ap(e.Args[1]) == want, "C12-R5", shortFn(r.Root), "limit passed to "+callee, c.P.InstrPos(e.Instr), want, "limit is "+ap(e.Args[1])+", want "+want)
+				}
+			}
+		}
+		if seen == 0 {
+			c.bad("C12-R5", shortFn(r.Root), "routes through "+callee, c.P.Pos(r.Root.Pos()), "no path of "+shortFn(r.Root)+" reaches "+callee)
+		} else {
+			nSites++
+		}
+	}
+	for _, spec := range []inboundSpec{ssoSpec, loRespSpec, loReqSpec} {
+		limitOf(spec.Entry, inboundInline, "parseResponse", "SP.MaximumDecompressedBodySize")
+	}
+	limitOf("(*SAMLServiceProvider).decryptAssertions", []string{"*", "-(*SAMLServiceProvider).getDecryptCert", "-types.(*EncryptedAssertion).DecryptBytes", "-parseResponse"}, "parseResponse", "SP.MaximumDecompressedBodySize")
+	limitOf("parseResponse", []string{"*", "-maybeDeflate"}, "maybeDeflate", "$maxSize")
+	limitOf("DecodeUnverifiedBaseResponse", []string{"*", "-maybeDeflate"}, "maybeDeflate", fmt.Sprint(defaultMax))
+	limitOf("DecodeUnverifiedLogoutResponse", []string{"*", "-maybeDeflate"}, "maybeDeflate", fmt.Sprint(defaultMax))
+	c.count("C12-R5/limit-kernels", nSites)
+	c.floor("C12-R5/limit-kernels", 7)
+	// no other caller of the two routines
+	scanCalls(c.P, c.P.LibFns, func(s string) bool { return shortName(s) == "maybeDeflate" }, func(s callSite) {
+		c.check(c.P.withinOnly(s.Caller, allowNames("parseResponse", "DecodeUnverifiedBaseResponse", "DecodeUnverifiedLogoutResponse")), "C12-R5", shortFn(s.Caller), "caller of maybeDeflate", c.P.InstrPos(s.Instr), "analysed caller", "new caller of maybeDeflate: its limit is not analysed")
 	})
 	scanCalls(c.P, c.P.LibFns, func(s string) bool { return shortName(s) == "parseResponse" }, func(s callSite) {
-		nSites++
-		got := renderOperand(s.Instr.Common().Args[1])
-		c.check(got == "sp.MaximumDecompressedBodySize", "C12-R5", shortFn(s.Caller), "limit passed to parseResponse", c.P.InstrPos(s.Instr), got, "limit is "+got+", want sp.MaximumDecompressedBodySize")
+		c.check(c.P.withinOnly(s.Caller, allowNames(ssoSpec.Entry, loRespSpec.Entry, loReqSpec.Entry, "(*SAMLServiceProvider).decryptAssertions")), "C12-R5", shortFn(s.Caller), "caller of parseResponse", c.P.InstrPos(s.Instr), "analysed caller", "new caller of parseResponse: its limit is not analysed")
 	})
-	c.count("C12-R5/limit-sites", nSites)
-	c.floor("C12-R5/limit-sites", 7)
 	// reachability of maybeDeflate from each inbound entry point
 	target := c.fn("maybeDeflate")
 	for _, r := range c09Roots[:6] {
